@@ -3,24 +3,32 @@ import json
 
 PROPS = ["C11/Props.v"]
 META = dict(
-    text="Rocq theorems over an executable transcription of obiapat._Pcr (both orientation blocks, search window, insert-length "
-         "arithmetic, flank clipping, circular-aware Subsequence, recycled C buffer) running on specification hits (IUPAC primer, "
-         "<= e mismatches): soundness and completeness against the set of (primer hit, downstream complemented-partner hit) pairs on "
-         "linear templates and on circular templates without extension, never-fatal, strand symmetry, rotation invariance, batch "
-         "independence. The model is tied to the real code on every run (vm_compute on the same templates PCRSim / PCRSlice / "
-         "PCRSliceWorker ran on; amplicons compared as sorted multisets of (sequence, direction, match strings, error counts)); a "
-         "brute-force Python oracle checks the statement directly on the implementation's amplicons, with relational clauses "
-         "(reverse complement, all rotations of small circles, reversed batches) and a command-level clause running obipcr itself "
-         "(option plumbing, --fragmented).",
+    text="Rocq theorems over an executable transcription of obiapat._Pcr and _Segment (both orientation blocks, exact search window, "
+         "insert-length arithmetic, flank clipping, circular-aware Subsequence, the walk around the circle, recycled C buffer) running on "
+         "specification hits (pattern positions = IUPAC letter / [..] class / !negation, optional # obligatory mark, <= e mismatches). "
+         "Proved at the level of MULTISETS: on linear and on circular templates the list of records returned is a permutation of the "
+         "specification list holding exactly one record per pair (site of one primer, site of the complemented other primer) within the "
+         "length bounds, whose members are the amplicons of the relational specification (soundness + completeness, never fatal); "
+         "reverse-complementing the template gives the same multiset with the direction flipped; rotating a circular template permutes "
+         "the records; batch independence. obipcr --fragmented: the cutting of obiiter.IFragments is modelled and tied to the code; every "
+         "amplicon lies inside the unique fragment that owns it, duplicates lie in the zone shared by two fragments, and searching the "
+         "fragments finds the same SET of amplicons as searching the template. The models are tied to the real code on every run "
+         "(vm_compute on the same templates PCRSim / PCRSlice / PCRSliceWorker ran on, amplicons compared as multisets of (sequence, "
+         "direction, match strings, error counts); IFragments on sequence lengths around every loop boundary); a brute-force Python oracle "
+         "checks the statement directly on the implementation's amplicons, with relational clauses (reverse complement, all rotations of "
+         "small circles - as multisets -, reversed batches) and a command-level clause running obipcr itself (option plumbing, --fragmented).",
     note="Trusted: Coq kernel + vm_compute; the C matcher (ManberSub/ManberNoErr) is represented by the specification matcher "
-         "(its exactness is property C10; re-tested here by every correspondence case); harness/generators. Strand symmetry and "
-         "rotation invariance of the model are proved for the SET of records (multiplicities: checked dynamically). Circular "
-         "templates with an extension: model-level theorems require the longest flanked amplicon to fit the circle. obipcr.CLIPCR and "
-         "obiiter.IFragments are exercised at command level against the oracle but not modelled in Coq. Not covered: primers with "
-         "'#', '!' or [..] classes; indel mode (PCR never enables it). Three known findings (circle shorter than a primer, flanked "
-         "amplicon longer than the circle, duplicates under --fragmented).")
-TRUSTED = ["the C bit-parallel matcher is represented in the model by the specification matcher (positions with <= e IUPAC mismatches, "
-           "minimal count) — its exactness is property C10 and is re-tested by every correspondence case of this check"]
+         "(its exactness is property C10; re-tested here by every correspondence case, including # / ! / [..] patterns); "
+         "harness/generators. Residual hypotheses of the theorems are on the OPTIONS only: extension >= 0 when requested, primers "
+         "non-empty, and on circular templates primers not longer than MAX_PAT_LEN = 64 (the length of the circular extension); templates "
+         "are arbitrary (empty, shorter than a primer, flanked amplicon longer than the circle). Fragmented mode: theorems assume a "
+         "positive step (99 max > sum of the primer lengths; otherwise IFragments does not advance - observed, not repaired) and no "
+         "flanks; multiplicities differ (known finding fragmented-duplicates, characterised by C11_fragments_duplicate_zone / "
+         "_owner_unique). Indel mode is not reachable from PCR (MakeApatPattern(primer, e, false)). Primers of 64 symbols or more are "
+         "outside the matcher's domain (C10 known finding; 65 symbols crash MakeApatPattern's caller).")
+TRUSTED = ["the C bit-parallel matcher is represented in the model by the specification matcher (positions with <= e mismatches against "
+           "IUPAC / [..] / ! positions, none on a # position, minimal count) — its exactness is property C10 and is re-tested by every "
+           "correspondence case of this check"]
 
 IUPAC = dict(a="a", c="c", g="g", t="t", u="t", r="ag", y="ct", s="cg", w="at", k="gt", m="ac",
              b="cgt", d="agt", h="act", v="acg", n="acgt", x="acgt")
@@ -33,26 +41,63 @@ def rc(s):
     return "".join(TCOMP[x] for x in reversed(s))
 
 
-def rc_primer(p):
-    return "".join(PCOMP[x] for x in reversed(p.lower()))
+def parse_primer(p):
+    """Pattern syntax of obiapat (MakeApatPattern): one position = optional '!' (negation: any letter of the whole alphabet
+    but those listed, so also n), an IUPAC letter or a [..] class of letters, optional '#' (no mismatch allowed there).
+    Returns a list of positions dict(set=accepted letters among acgt, other=accepts letters outside acgt, oblig=bool)."""
+    p = p.lower()
+    toks, i = [], 0
+    while i < len(p):
+        neg = False
+        if p[i] == "!":
+            neg = True
+            i += 1
+        if p[i] == "[":
+            j = p.index("]", i)
+            letters = p[i + 1:j]
+            i = j + 1
+        else:
+            letters = p[i]
+            i += 1
+        acc = set()
+        for x in letters:
+            acc |= set(IUPAC[x])
+        if neg:
+            acc = set(BASES_SET) - acc
+        oblig = i < len(p) and p[i] == "#"
+        if oblig:
+            i += 1
+        toks.append(dict(set="".join(sorted(acc)), other=neg, oblig=oblig))
+    return toks
 
 
-def sym_match(p, x):
-    return x in IUPAC.get(p, "")
+BASES_SET = "acgt"
 
 
-def hits(primer, e, text, n_starts):
-    """Specification matcher: (i, mismatches) for every start i < n_starts such that primer fits in text at i
-    (text is already extended for circular templates) with <= e mismatches."""
-    primer = primer.lower()
-    m = len(primer)
+def plen(p):
+    return len(parse_primer(p))
+
+
+def rc_tokens(toks):
+    return [dict(set="".join(sorted(TCOMP[x] for x in k["set"])), other=k["other"], oblig=k["oblig"]) for k in reversed(toks)]
+
+
+def tok_match(k, x):
+    return (x in k["set"]) if x in BASES_SET else k["other"]
+
+
+def hits(toks, e, text, n_starts):
+    """Specification matcher: (i, mismatches) for every start i < n_starts such that the primer (parsed positions) fits in
+    text at i (text is already extended for circular templates) with <= e mismatches, none of them on a '#' position."""
+    m = len(toks)
     res = []
     for i in range(0, min(n_starts, len(text) - m + 1)):
         k = 0
         for q in range(m):
-            if not sym_match(primer[q], text[i + q]):
+            if not tok_match(toks[q], text[i + q]):
                 k += 1
-                if k > e:
+                if k > e or toks[q]["oblig"]:
+                    k = e + 1
                     break
         if k <= e:
             res.append((i, k))
@@ -69,7 +114,7 @@ def spec_forward(t, c, direction):
     """Amplicons of the forward orientation of template t: every (forward hit i, complemented-reverse hit j downstream).
     Returns (list of amplicon dicts, unconstrained flag)."""
     L = len(t)
-    fwd, rev = c["fwd"].lower(), c["rev"].lower()
+    fwd, rev = parse_primer(c["fwd"]), parse_primer(c["rev"])
     fl, rl = len(fwd), len(rev)
     mn, mx, ext, full = c["min"], c["max"], c["ext"], c["full"]
     amps, unconstrained = [], False
@@ -78,10 +123,10 @@ def spec_forward(t, c, direction):
     if c["circular"]:
         text = circ(t, 0, L + MAXPAT)
         F = hits(fwd, c["ef"], text, L)
-        R = hits(rc_primer(rev), c["er"], text, L)
+        R = hits(rc_tokens(rev), c["er"], text, L)
     else:
         F = hits(fwd, c["ef"], t, L)
-        R = hits(rc_primer(rev), c["er"], t, L)
+        R = hits(rc_tokens(rev), c["er"], t, L)
     for (i, ei) in F:
         for (j, ej) in R:
             if c["circular"]:
@@ -93,8 +138,6 @@ def spec_forward(t, c, direction):
             if c["circular"]:
                 if ext >= 0:
                     tot = fl + ins + rl + 2 * ext
-                    if tot > L:
-                        unconstrained = True      # flanked amplicon longer than the circle (recorded known finding)
                     seq = circ(t, i - ext, tot)
                 else:
                     seq = circ(t, i + fl, ins)
@@ -143,25 +186,38 @@ def rand_seq(rng, n, alphabet=BASES):
     return "".join(rng.choice(alphabet) for _ in range(n))
 
 
-def rand_primer(rng, m):
+def rand_primer(rng, m, syntax=False):
+    """m pattern positions; syntax=True also uses [..] classes, ! negations and # marks (never on the first position for
+    '#', which MakeApatPattern rejects)."""
     p = []
-    for _ in range(m):
-        p.append(rng.choice(AMBIG) if rng.random() < 0.2 else rng.choice(BASES))
+    for q in range(m):
+        r = rng.random()
+        if syntax and r < 0.15:
+            x = "[" + "".join(rng.sample(BASES, rng.choice([1, 2, 2, 3]))) + "]"
+        elif syntax and r < 0.3:
+            x = "!" + rng.choice(BASES + "ry")
+        elif syntax and r < 0.33:
+            x = "![" + "".join(rng.sample(BASES, 2)) + "]"
+        else:
+            x = rng.choice(AMBIG) if rng.random() < 0.2 else rng.choice(BASES)
+        if syntax and rng.random() < 0.25:
+            x += "#"
+        p.append(x)
     return "".join(p)
 
 
-def instance(rng, p):
-    """A concrete acgt word matched by IUPAC primer p."""
-    return "".join(rng.choice(IUPAC[x]) for x in p)
+def instance(rng, toks):
+    """A concrete acgt word matched by the parsed primer (positions accepting no base get an 'a')."""
+    return "".join(rng.choice(k["set"]) if k["set"] else "a" for k in toks)
 
 
-def mutate(rng, p, w, k):
-    """w with k positions replaced by a letter NOT matched by the primer symbol (when one exists)."""
+def mutate(rng, toks, w, k):
+    """w with k positions replaced by a letter NOT matched by the primer position (when one exists)."""
     w = list(w)
-    pos = [q for q in range(len(p)) if len(IUPAC[p[q]]) < 4]
+    pos = [q for q in range(len(toks)) if len(toks[q]["set"]) < 4]
     rng.shuffle(pos)
     for q in pos[:k]:
-        w[q] = rng.choice([x for x in BASES if x not in IUPAC[p[q]]])
+        w[q] = rng.choice([x for x in BASES if x not in toks[q]["set"]])
     return "".join(w)
 
 
@@ -170,13 +226,16 @@ def gen_case(rng, circular=None, small=False):
     rl = fl if rng.random() < 0.4 else rng.choice([3, 4, 5, 6, 8, 12, 20])
     if small:
         fl, rl = rng.choice([3, 4, 5]), rng.choice([3, 4, 5, 6])
-    fwd, rev = rand_primer(rng, fl), rand_primer(rng, rl)
+    syntax = rng.random() < 0.3
+    fwd, rev = rand_primer(rng, fl, syntax), rand_primer(rng, rl, syntax)
     ef = rng.choice([0, 0, 1, 1, 2]) if fl > 4 else rng.choice([0, 0, 1])
     er = rng.choice([0, 0, 1, 1, 2]) if rl > 4 else rng.choice([0, 0, 1])
     if rng.random() < 0.3:
         er = ef
     circular = (rng.random() < 0.4) if circular is None else circular
-    crev = rc_primer(rev)
+    fwd_s, rev_s = fwd, rev
+    fwd, rev = parse_primer(fwd_s), parse_primer(rev_s)
+    crev = rc_tokens(rev)
     nt = rng.choice([1, 1, 2, 3, 4])
     templates = []
     for _ in range(nt):
@@ -188,7 +247,7 @@ def gen_case(rng, circular=None, small=False):
         nsites = rng.choice([0, 1, 1, 2, 2, 3, 4])
         for _ in range(nsites):
             which = rng.choice(["fwd", "crev", "rev", "cfwd"])
-            p = dict(fwd=fwd, crev=crev, rev=rev, cfwd=rc_primer(fwd))[which]
+            p = dict(fwd=fwd, crev=crev, rev=rev, cfwd=rc_tokens(fwd))[which]
             e = ef if which in ("fwd", "cfwd") else er
             k = rng.choice([0, 0, 0, 1, e, e + 1])
             w = mutate(rng, p, instance(rng, p), k)
@@ -211,7 +270,7 @@ def gen_case(rng, circular=None, small=False):
         # plant whole priming pairs (site ... partner site) on either strand, gap 0 (touching) .. 30, possibly wrapping
         for _ in range(rng.choice([0, 1, 1, 2])):
             strand = rng.random() < 0.5
-            p1, p2 = (fwd, crev) if strand else (rev, rc_primer(fwd))
+            p1, p2 = (fwd, crev) if strand else (rev, rc_tokens(fwd))
             e1, e2 = (ef, er) if strand else (er, ef)
             w1 = mutate(rng, p1, instance(rng, p1), rng.choice([0, 0, 1, e1, e1 + 1]))
             w2 = mutate(rng, p2, instance(rng, p2), rng.choice([0, 0, 1, e2, e2 + 1]))
@@ -241,8 +300,32 @@ def gen_case(rng, circular=None, small=False):
     ext = -1 if r < 0.5 else rng.choice([0, 1, 2, 3, 5, 10, 40])
     full = rng.random() < 0.4
     mode = rng.choice(["sim", "slice", "slice", "worker"])
-    return dict(templates=templates, fwd=fwd, rev=rev, ef=ef, er=er, min=mn, max=mx, ext=ext, full=full,
+    return dict(templates=templates, fwd=fwd_s, rev=rev_s, ef=ef, er=er, min=mn, max=mx, ext=ext, full=full,
                 circular=circular, mode=mode)
+
+
+def gen_tiny_circle(rng):
+    """Circular templates of 1..9 bases built from a repeated unit, primers cut from several turns of the same circle (so
+    that a primer site goes around the circle more than once), flanks up to several turns."""
+    u = rand_seq(rng, rng.randrange(1, 5))
+    L = rng.randrange(1, 10)
+    t = (u * 10)[:L]
+    turns = t * 12
+    a = rng.randrange(0, L)
+    fl, rl = rng.choice([2, 3, 5, 8, 11]), rng.choice([2, 3, 4, 7, 12])
+    fwd = turns[a:a + fl]
+    b = rng.randrange(0, L)
+    rev = rc(turns[b:b + rl])
+    if rng.random() < 0.3:
+        q = rng.randrange(len(fwd))
+        fwd = fwd[:q] + rng.choice(BASES + "nry") + fwd[q + 1:]
+    ef = rng.choice([0, 0, 1]) if fl > 2 else 0
+    er = rng.choice([0, 0, 1]) if rl > 2 else 0
+    templates = [t[r:] + t[:r] for r in sorted({0, rng.randrange(0, L), L - 1})]
+    mn, mx = rng.choice([(0, 0), (0, 0), (1, 3), (2, 0), (0, 2 * L)])
+    ext = rng.choice([-1, -1, 0, 1, L, 2 * L + 1, 13])
+    return dict(templates=templates, fwd=fwd, rev=rev, ef=ef, er=er, min=mn, max=mx, ext=ext, full=rng.random() < 0.3,
+                circular=True, mode=rng.choice(["sim", "slice", "worker"]))
 
 
 def hand_cases():
@@ -272,6 +355,15 @@ def hand_cases():
     add("errors-e-and-e+1", fwd="acgtac", rev="ggccgg", ef=1, er=1,
         templates=["ttacgtacaaaaaccggcctt", "ttaggtacaaaaaccggcctt", "ttaggtaaaaaaaccggcctt", "ttacgtacaaaaaccgggatt", "ttacgtacaaaaaccaagctt"])
     add("empty-and-short", templates=["", "a", "acgt", "acgtggc"])
+    # pattern syntax: [..] classes, ! negation (matches any other letter, n included), # obligatory positions
+    add("syntax-class", fwd="ac[gt]t", rev="gg[ac]c", templates=["ttacgtaaaaaggcctt", "ttacttaaaaagtcctt", "ttacataaaaaggcctt", "ggcctttacgt"])
+    add("syntax-negation", fwd="a!ggt", rev="gg!tc", templates=["ttacgtaaaaaggcctt", "ttaggtaaaaaggcctt", "ttangtaaaaagncctt", "ttacgtaaaaagacctt"])
+    add("syntax-negated-class", fwd="a![ct]gt", rev="ggcc", templates=["ttaagtaaaaaggcctt", "ttacgtaaaaaggcctt", "ttangtaaaaaggcctt"])
+    add("syntax-oblig-mismatch-rejected", fwd="ac#gtac", rev="gg#ccgg", ef=1, er=1,
+        templates=["ttacgtacaaaaaccggcctt", "ttaggtacaaaaaccggcctt", "ttacctacaaaaaccggcctt", "ttacgtacaaaaaccgggctt", "ttacgtacaaaaaccgcactt",
+                   "ttggccggtttttgtacgttt", "ttggccggtttttgtacctaa"])
+    add("syntax-oblig-circular", circular=True, fwd="acg#tac", rev="ggc#", ef=1, er=1, templates=["gtacgt" + "t" * 20 + "ggc" + "aac", "gtaagt" + "t" * 20 + "ggc" + "aac", "gtacct" + "t" * 20 + "ggc" + "aac"])
+    add("syntax-all", fwd="a#[ct]!ag#t", rev="!t#g[ca]c#", ef=2, er=2, templates=["ttacgtaaaaaggcctt", "ttatcgtaaaagtcgtt", "aaggcctttttacgtaa", "aagcccttttnacgtaa"])
     add("batch-recycled-long-then-short", templates=["ttacgtaaaaaggcctt" * 6, "acgtaggcc", "ggcctacgt", ""], mode="slice")
     add("batch-recycled-short-then-long", templates=["", "acgtaggcc", "ttacgtaaaaaggcctt" * 6], mode="worker")
     add("circular-plain", circular=True, templates=["ttacgtaaaaaggcctt" + "a" * 60])
@@ -285,9 +377,14 @@ def hand_cases():
     add("fixed:circ-rotation-dependent-short", circular=True, fwd="acgt", rev="gtcc", templates=["ttggacgtaaaaaaa", "gacgtaaaaaaattg"])
     add("fixed:circ-flank-before-origin", circular=True, ext=3, templates=["tacgtaaaaaggcc" + "t" * 70])
     add("circ-flank-after-origin", circular=True, ext=3, templates=["t" * 70 + "tacgtaaaaaggcc"])
-    add("known:circular-template-shorter-than-primer", circular=True, fwd="acgtacgta", rev="gta", templates=["acgt"])
-    add("known:circular-flanked-amplicon-longer-than-circle", circular=True, ext=10,
-        templates=["acgt" + "a" * 15 + "ggcc" + "t" * 7])
+    add("fixed:circular-template-shorter-than-primer", circular=True, fwd="acgtacgta", rev="gta", templates=["acgt", "cgta", "gtac", "tacg"])
+    add("fixed:circular-template-shorter-than-primer-flanks", circular=True, fwd="acgtacgta", rev="gta", ext=3, templates=["acgt", "a", "ac"])
+    add("fixed:circular-flanked-amplicon-longer-than-circle", circular=True, ext=10,
+        templates=["acgt" + "a" * 15 + "ggcc" + "t" * 7, "a" * 15 + "ggcc" + "t" * 7 + "acgt"])
+    add("circular-flank-several-turns", circular=True, ext=40, templates=["acgtaggcct", "ggcctacgta"])
+    add("circular-one-base-circle", circular=True, fwd="aaa", rev="ttt", ef=0, er=0, templates=["a", "t", "c"])
+    add("fixed:reverse-window-longer-forward-primer", fwd="acgtacgtacgtacgtacgt", rev="ggc", max=6,
+        templates=[rc("tt" + "acgtacgtacgtacgtacgt" + "a" * k + "gcc" + "tt") for k in (3, 4, 5, 6, 7)] + ["tt" + "acgtacgtacgtacgtacgt" + "a" * 6 + "gcc" + "tt"])
     add("circ-short-template", circular=True, templates=["gtaaaaaggccttttac", "cgtaaaaaggccttttta", "ccttttacgtaaaaagg"])
     return C
 
@@ -328,18 +425,6 @@ def judge(c, o):
     return bad, unconstrained
 
 
-def short_circle(c, t):
-    """circular template shorter than a primer: recorded known finding (reads past the end of the template)."""
-    return c["circular"] and len(t) < max(len(c["fwd"]), len(c["rev"]))
-
-
-def classify_circular(c, t):
-    """Which recorded defect class a failing circular template falls in (most specific first)."""
-    if short_circle(c, t):
-        return "circular-template-shorter-than-primer"
-    return None
-
-
 def single(c, ti):
     return dict({k: c[k] for k in CASE_KEYS}, templates=[c["templates"][ti]], mode="sim")
 
@@ -364,7 +449,9 @@ def seq_term(s):
 
 
 def primer_term(p):
-    return "[" + ";".join(str(PMASK[x]) for x in p.lower()) + "]"
+    """one N per pattern position: bits 0..3 = a c g t accepted, bit 4 = '#', bit 5 = letters outside acgt accepted ('!')"""
+    return "[" + ";".join(str(sum(1 << NUC[x] for x in k["set"]) + (16 if k["oblig"] else 0) + (32 if k["other"] else 0))
+                          for k in parse_primer(p)) + "]"
 
 
 def case_term(c, ti, amps):
@@ -395,14 +482,7 @@ def evaluate(ctx, cases, broken, label, correspond=True, max_report=3):
         for (ti, klass, got, exp) in bad:
             stats["failing"] += 1
             fails.append((i, ti, klass))
-            if klass in ("fatal", "crash"):
-                key = None
-            elif klass == "circular-overlong":
-                key = "circular-flanked-amplicon-longer-than-circle"
-            elif klass == "circular":
-                key = classify_circular(c, c["templates"][ti])
-            else:
-                key = None
+            key = None          # no known finding left at this level (both circular findings of round 1 are repaired)
             if key and ctx.kf_match(key):
                 ctx.known(key, ctx.kf_match(key)["what"])
                 continue
@@ -426,7 +506,7 @@ def evaluate(ctx, cases, broken, label, correspond=True, max_report=3):
             if o["kind"] != "ok":
                 continue
             for ti, t in enumerate(c["templates"]):
-                if len(t) > 400 or len(o["amps"][ti]) > 60 or short_circle(c, t):
+                if len(t) > 400 or len(o["amps"][ti]) > 60:
                     continue
                 terms.append(case_term(c, ti, o["amps"][ti]))
                 where.append((i, ti))
@@ -483,12 +563,10 @@ def relational(ctx, cases, obs, label):
             t = c["templates"][ti]
             for k, rt in enumerate(d["templates"]):
                 counts["rotation"] += 1
-                if set(canon(o["amps"][ti])) != set(canon(do["amps"][k])):
+                if canon(o["amps"][ti]) != canon(do["amps"][k]):       # multisets (C11_rotation_invariant_impl)
                     fails.append((dict(d, templates=[t, rt], mode="slice"), canon(o["amps"][ti]), canon(do["amps"][k])))
         for (wc, a, b) in fails:
             key = None
-            if kind in ("rotation", "strand") and c["circular"]:
-                key = "circular-template-shorter-than-primer" if any(short_circle(c, t) for t in wc["templates"]) else None
             if key and ctx.kf_match(key):
                 ctx.known(key, ctx.kf_match(key)["what"])
                 continue
@@ -568,12 +646,12 @@ def cli_cases(rng):
         c["er"] = c["ef"]
         c["templates"] = [t for t in c["templates"] if t]
         c["max"] = c["max"] or 50                      # -L is mandatory on the command line
-        if c["templates"] and not any(short_circle(c, t) for t in c["templates"]):
+        if c["templates"]:
             cases.append(c)
     # --fragmented: max=10 -> sequences above 10000 bp are cut in fragments of 1000 bp; the amplicon (two 20-base primers +
     # 10 bases) is planted at offsets around the fragment boundaries (960, 1920, ...) and far from them, on either strand
     fwd, rev = "acgtacgtacgtacgtacgt", "ggccggaaggccggaaggcc"
-    w = fwd + "a" * 10 + rc_primer(rev)
+    w = fwd + "a" * 10 + rc(rev)
     ts = []
     for pos in [100, 930, 945, 951, 955, 959, 960, 970, 1915, 1925, 11940, 11950]:
         t = [rng.choice("ac") for _ in range(12000)]
@@ -583,7 +661,7 @@ def cli_cases(rng):
     cases.append(dict(templates=ts, fwd=fwd, rev=rev, ef=0, er=0, min=1, max=10, ext=-1, full=False, circular=False, fragmented=True, mode="cli"))
     # a short amplicon (8+3+8 bases, max 25) lying entirely inside the overlap of two fragments
     fwd2, rev2 = "acgtacgt", "ggccggaa"
-    w2 = fwd2 + "aca" + rc_primer(rev2)
+    w2 = fwd2 + "aca" + rc(rev2)
     ts2 = []
     for pos in [500, 2470, 2475, 2490]:
         t = [rng.choice("ac") for _ in range(26000)]
@@ -618,9 +696,7 @@ def cli_clause(ctx, broken):
                 if got == want:
                     continue
                 key = None
-                if unc:
-                    key = "circular-flanked-amplicon-longer-than-circle"
-                elif c.get("fragmented") and set(got) == set(want):
+                if c.get("fragmented") and set(got) == set(want):
                     key = "fragmented-duplicates"
                 if key and ctx.kf_match(key):
                     ctx.known(key, ctx.kf_match(key)["what"])
@@ -634,46 +710,159 @@ def cli_clause(ctx, broken):
     return stats
 
 
+
+# ------------------------------------------------------------------ obiiter.IFragments (fragment arithmetic of --fragmented)
+FRAG_IMPORTS = "From Coq Require Import ZArith List. Import ListNotations. Open Scope Z_scope.\nFrom OBI.C11 Require Import Model."
+
+
+def frag_cases(rng, n):
+    """(minsize, length, overlap) with 0 <= overlap < length (the hypothesis of the theorems; CLIPCR passes 1000*max, 100*max,
+    max + both primer lengths) and sequence lengths around every boundary of the loop."""
+    cases = [dict(lens=[0, 1, 99, 100, 101, 159, 160, 218, 219, 277, 300, 1000], minsize=100, length=100, overlap=41),   # -L 1, two 20-mers
+             dict(lens=[2500, 2501, 4959, 4960, 7000, 26000], minsize=2500, length=2500, overlap=41),
+             dict(lens=[10, 11, 12, 13, 14, 15, 16, 17, 18, 19, 20, 21, 22, 23, 24, 25], minsize=5, length=6, overlap=5),  # step 1
+             dict(lens=[10, 11, 12, 13, 50], minsize=3, length=7, overlap=0)]                                             # no overlap
+    for _ in range(n):
+        length = rng.choice([2, 3, 5, 8, 13, 40, 100, 250])
+        overlap = rng.randrange(0, length)
+        step = length - overlap
+        minsize = rng.choice([0, 1, length - 1, length, 2 * length, 10 * length])
+        lens = []
+        for _ in range(rng.randrange(1, 8)):
+            k = rng.randrange(0, 12)
+            lens.append(max(0, rng.choice([minsize, minsize + 1, k * step, k * step + 1, k * step + length, k * step + length - 1,
+                                           k * step + length + step - 1, k * step + length + step, rng.randrange(0, 14 * length)])))
+        cases.append(dict(lens=lens, minsize=minsize, length=length, overlap=overlap, batch=rng.choice([1, 2, 5]), workers=rng.choice([1, 1, 3])))
+    return cases
+
+
+def frag_clause(ctx, broken):
+    """IFragments against (a) the direct statement: every interval not longer than the overlap lies inside a fragment, exactly
+    one fragment owns it, fragments are well-formed; (b) the Coq model `fragments` (theorems of Fragments.v)."""
+    cases = frag_cases(ctx.rng, 60 if ctx.quick else 1500)
+    obs = ctx.vh_robust("c11frag", cases, timeout=300, one_timeout=20)
+    stats = dict(cases=len(cases), sequences=0, fragments=0, cut_sequences=0, intervals_checked=0)
+    terms, where, nrep = [], [], 0
+    for ci, (c, o) in enumerate(zip(cases, obs)):
+        if o["kind"] != "ok":
+            ctx.violation("frag_%d_crash" % ci, dict(property="C11", kind="ifragments-run", case=c, implementation=o))
+            continue
+        step, ov = c["length"] - c["overlap"], c["overlap"]
+        for si, N in enumerate(c["lens"]):
+            fr = [tuple(f) for f in o["frags"][si]]
+            stats["sequences"] += 1
+            stats["fragments"] += len(fr)
+            stats["cut_sequences"] += 1 if len(fr) > 1 else 0
+            bad = None
+            if N > 0 and not fr:
+                bad = "no fragment"
+            for (s, e) in fr:
+                if not (0 <= s and (s < e or N == 0) and e <= N):
+                    bad = "ill-formed fragment %s" % ((s, e),)
+            if bad is None and N <= 4000:
+                for a in range(N):
+                    b = min(N, a + max(ov, 1))
+                    stats["intervals_checked"] += 1
+                    holders = [f for f in fr if f[0] <= a and b <= f[1]]
+                    owners = [f for f in fr if f[0] <= a and (a < f[0] + step or f[1] == N)]
+                    if not holders:
+                        bad = "interval [%d,%d) (<= overlap) lies in no fragment" % (a, b)
+                        break
+                    if len(owners) != 1 or owners[0] not in holders:
+                        bad = "interval starting at %d has owners %s" % (a, owners)
+                        break
+            if bad:
+                nrep += 1
+                if nrep <= 3:
+                    ctx.violation("frag_%d_%d" % (ci, si), dict(property="C11", kind="ifragments-oracle", what=bad,
+                                                                case=dict(c, lens=[N]), implementation=fr))
+            terms.append("mkf %d %d %d %d [%s]" % (c["minsize"], c["length"], c["overlap"], N, "; ".join("(%d, %d)" % f for f in fr)))
+            where.append((ci, si))
+    bad, err = ctx.correspond("frag", FRAG_IMPORTS, terms, fn="frag_mismatches", shard=400)
+    if bad is None:
+        broken.append(dict(kind="correspondence", detail=err))
+    elif bad and not ctx.violations:
+        ci, si = where[bad[0]]
+        broken.append(dict(kind="correspondence", name="corr:C11/fragments", n_diverging=len(bad),
+                           first_diverging_case=dict(cases[ci], lens=[cases[ci]["lens"][si]]), implementation=obs[ci]["frags"][si]))
+    stats["model_vs_impl_mismatches"] = len(bad or [])
+    # outside the hypothesis overlap < length of the theorems: the loop of IFragments steps backwards (recorded known finding)
+    neg = dict(lens=[300], minsize=100, length=10, overlap=11)
+    no = ctx.vh_robust("c11frag", [neg], timeout=30)[0]
+    if no["kind"] != "ok":
+        k = ctx.kf_match("fragments-nonpositive-step")
+        if k:
+            ctx.known("fragments-nonpositive-step", k["what"])
+        else:
+            ctx.violation("frag_nonpositive_step", dict(property="C11", kind="ifragments-run", case=neg, implementation=no))
+    stats["nonpositive_step_case"] = no["kind"]
+    return stats
+
+
 def run(ctx, broken):
     rng = ctx.rng
     nrand = 600 if ctx.quick else 12000
     cases = hand_cases()
     for k in range(nrand):
         cases.append(gen_case(rng, small=(k % 5 == 0)))
-    obs, fails, mism, stats = evaluate(ctx, cases, broken, "main")
-    rel = relational(ctx, cases, obs, "rel")
+    for k in range(nrand // 10):
+        cases.append(gen_tiny_circle(rng))
+    # evaluated by chunks (one chunk in the quick tier) so that the thorough tier keeps a bounded memory footprint
+    CH = 2000
+    stats, rel, nontriv, dist, mism_first, n_mism, samples = {}, {}, set(), {}, None, 0, []
+    nchunks = (len(cases) + CH - 1) // CH
+    for ci in range(nchunks):
+        chunk = cases[ci * CH:(ci + 1) * CH]
+        sfx = "" if nchunks == 1 else str(ci)
+        obs, fails, mism, st = evaluate(ctx, chunk, broken, "main" + sfx)
+        rl = relational(ctx, chunk, obs, "rel" + sfx)
+        for k, v in st.items():
+            stats[k] = stats.get(k, 0) + v
+        for k, v in rl.items():
+            rel[k] = rel.get(k, 0) + v
+        for c, o in zip(chunk, obs):
+            if o["kind"] == "ok":
+                for t, a in zip(c["templates"], o["amps"]):
+                    if a:
+                        nontriv.add((t,) + tuple(c[k] for k in CASE_KEYS[1:-1]))
+            k = "%s/%s/%s/%s" % ("circular" if c["circular"] else "linear", "ext" if c["ext"] >= 0 else "noext", c["mode"], o["kind"])
+            dist[k] = dist.get(k, 0) + 1
+        if ci == 0:
+            samples += [dict(case=to_vh(c), implementation=o) for c, o in list(zip(chunk, obs))[:2]]
+        if ci == nchunks - 1:
+            samples += [dict(case=to_vh(c), implementation=o) for c, o in list(zip(chunk, obs))[-2:]]
+        n_mism += len(mism)
+        if mism and mism_first is None:
+            i, ti = mism[0]
+            mism_first = (single(chunk[i], ti), obs[i]["amps"][ti])
+        del obs
     ctx.cov["evaluations"] = stats["templates"] + sum(rel.values())
-    nontriv = set()
-    for c, o in zip(cases, obs):
-        if o["kind"] == "ok":
-            for t, a in zip(c["templates"], o["amps"]):
-                if a:
-                    nontriv.add((t,) + tuple(c[k] for k in CASE_KEYS[1:-1]))
     ctx.cov["distinct_nontrivial"] = len(nontriv)
     ctx.cov["rule"] = ("one evaluation = one template through PCRSim/PCRSlice/PCRSliceWorker judged against the brute-force pair enumeration "
                        "(+ relational clauses: reverse complement, rotations, reversed batch); non-trivial = at least one amplicon reported; "
                        "distinct = distinct (template, primers, budgets, min, max, flank, full, topology)")
-    dist = {}
-    for c, o in zip(cases, obs):
-        k = "%s/%s/%s/%s" % ("circular" if c["circular"] else "linear", "ext" if c["ext"] >= 0 else "noext", c["mode"], o["kind"])
-        dist[k] = dist.get(k, 0) + 1
     cli = cli_clause(ctx, broken)
-    ctx.cov["distribution"] = dict(cases=dist, **stats, relational=rel, obipcr_command=cli)
-    ctx.samples = [dict(case=to_vh(c), implementation=o) for c, o in list(zip(cases, obs))[:2] + list(zip(cases, obs))[-2:]]
-    ctx.cov["model_vs_impl_mismatches"] = len(mism)
-    if mism and not ctx.violations:
+    frag = frag_clause(ctx, broken)
+    ctx.cov["distribution"] = dict(cases=dist, **stats, relational=rel, obipcr_command=cli, ifragments=frag)
+    ctx.samples = samples
+    ctx.cov["model_vs_impl_mismatches"] = n_mism
+    if n_mism and not ctx.violations:
         more = [gen_case(rng, small=(k % 3 == 0)) for k in range(4000)]
         evaluate(ctx, more, [], "search", correspond=False)
         if not ctx.violations:
-            i, ti = mism[0]
-            broken.append(dict(kind="correspondence", name="corr:C11/amplicons", first_diverging_case=single(cases[i], ti),
-                               implementation=obs[i]["amps"][ti], n_diverging=len(mism)))
-    elif mism:
-        ctx.cov["note"] = "model and implementation diverge on %d templates (violations reported by the direct oracle)" % len(mism)
+            broken.append(dict(kind="correspondence", name="corr:C11/amplicons", first_diverging_case=mism_first[0],
+                               implementation=mism_first[1], n_diverging=n_mism))
+    elif n_mism:
+        ctx.cov["note"] = "model and implementation diverge on %d templates (violations reported by the direct oracle)" % n_mism
 
 
 def replay(ctx, rp):
     c = rp["case"]
+    if "lens" in c:
+        o = ctx.vh_robust("c11frag", [c], timeout=60)[0]
+        print("replay (IFragments):", json.dumps(c))
+        print(" implementation:", json.dumps(o), "| recorded:", rp.get("what"))
+        return
     if c.get("mode") == "cli":
         import tempfile
         bindir, err = ctx.build_cmds(["obipcr"])
